@@ -93,7 +93,7 @@ def _case(draw, tier):
 
 
 PHASES = [
-    HypPhase("messy", _case, dict(quick=1500, thorough=15000)),
+    HypPhase("messy", _case, dict(quick=2000, thorough=15000)),
 ]
 
 
